@@ -34,7 +34,7 @@ CFG = dict(
           dict(test="TestC19Chan", timeout_quick=300, timeout_thorough=1200),
           dict(test="TestC19Ws", timeout_quick=300, timeout_thorough=1200),
           dict(test="TestC19Http", timeout_quick=300, timeout_thorough=1200),
-          dict(test="TestC19HttpE2E", timeout_quick=300, timeout_thorough=1200)],
+          dict(test="TestC19HttpE2E", timeout_quick=90, timeout_thorough=600)],
     reason_text={"1": "the real transport / codec differs from the Gallina model (Model/Transports.v, Model/WireFormat.v): no "
                       "quiescent model state predicts the observation, or encode/decode differ from proto.Marshal/Unmarshal",
                  "2": "the observed history violates the property predicate (Check/C19c.v: round trip, spec_chan, spec_ws, "
